@@ -298,7 +298,10 @@ def directed(rng):
             {"signal_time": scen.iso(start), "start_time": scen.iso(start + datetime.timedelta(hours=rng.choice([2, 3]))), "grid_connector_id": gid,
              "max_power": round(rating * 0.5, 2)}]
         js["scenario"]["core_standing_time"] = {"times": [{"start": [22, 0], "end": [5, 0]}], "no_drive_days": [6]}
-        out.append((js, "schedule", {"LOAD_STRAT": rng.choice(["collective", "individual"]), "ALLOW_NEGATIVE_SOC": True}))
+        # (individual mode needs per-vehicle schedules, which this family does not carry: it would stop at step 0; one draw is kept
+        # so that the scenarios generated after this family stay the same)
+        rng.choice(["collective", "individual"])
+        out.append((js, "schedule", {"LOAD_STRAT": "collective", "ALLOW_NEGATIVE_SOC": True}))
     # D9: overdue vehicles - still plugged in at/after their estimated time of departure (the real departure comes later or
     # never), several of them behind one tight connector, stations rated below the vehicle curve (round-3 seeds C04-s7, C05-s8)
     for k9 in range(3):
